@@ -304,6 +304,22 @@ Lemma w_writable_share_reaches :
   end = true.
 Proof. vm_compute. reflexivity. Qed.
 
+(* a model hands one of its stored messages to a write on another resource constructed with writable field 1
+   (electricpb changeActiveMode before 6705ac9): Add {1: 7, 2: 5, 19: {1: 3}}; Get; the write.  The stored
+   message and the two earlier results (snapshots 1, 2) lose fields 2 and 19. *)
+Definition w_stored_arg : list cell := [CNode [(1, 7); (2, 5)] [(19, (Caller, 1))] []; CNode [(1, 3)] [] []].
+Definition w_write_stored (v0 : bool) : list op :=
+  [OWrite 1 w_stored_arg true None MAdd i_none i_none; OGet 1 None;
+   ORead ((if v0 then r_write_stored_v0 else r_write_stored) fuel 0%nat (Some (NM [(1, NM [])])) None None)].
+Definition changed_last (ops : list op) : list Z :=
+  let st := run fuel (init_state true) (removelast ops) in
+  match last ops (ODelete 0) with o => changed fuel st (step fuel st o) end.
+Lemma w_write_stored_v0_fails : changed_last (w_write_stored true) = [1; 2].
+Proof. vm_compute. reflexivity. Qed.
+Lemma w_write_stored_ok :
+  changed_last (w_write_stored false) = [] /\ zlen (snaps (run fuel (init_state true) (w_write_stored false))) = 4.
+Proof. vm_compute. auto. Qed.
+
 Lemma list_eqb_Z a : forall b, list_eqb Z.eqb a b = true -> a = b.
 Proof.
   induction a as [|x a IH]; intros [|y b]; simpl; try discriminate; auto.
